@@ -167,6 +167,10 @@ def checks(tier):
             for sig in (["scalar-", "tensor"] if "mstdp" in variant else ["-"]):
                 da.append(dict(variant=variant, signs=sg, cell="dense", delays=("zero" if variant == "kernel" else "symbolic"), signal=sig, B=(1 if sig == "tensor" else 2),
                                reduction="sum", dt=1.0, T=3))
+    # kernel hyper-parameters given as tensors (registered as buffers of the cell state)
+    for variant in ("kernel", "da-kernel", "da-kerneld"):
+        for sg in (C18.SIGNS if th else ("hebbian", "antihebbian")):
+            da.append(dict(variant=variant, signs=sg, cell="dense", delays=("zero" if variant == "kernel" else "symbolic"), signal="-", B=2, reduction="sum", dt=1.0, T=3, tensor_kwargs=True))
     dr = [dict(trainer=tr, order=o, reward=r, gap=g) for tr in ("stdp", "mstdp", "mstdpet") for o in ("causal", "anticausal") for r in ((1.0,) if tr == "stdp" else (1.0, -1.0))
           for g in ((1, 2, 3) if th else (2,))]
     ho = [dict(param=p, B=B, T=(4 if th else 3), reduction=red, plasticity=lam) for p in ("weight", "bias", "delay") for B, red in ((1, "mean"), (2, "sum"), (2, "mean"))
